@@ -23,11 +23,18 @@ BIN=./target/release/verif
 rm -f /verif/replays/emergency.json
 case "$MODE" in
   quick|thorough)
-    if [ "$MODE" = thorough ] && [ -x /verif/fuzz/run_fuzz.sh ] && [ -z "$ARG" ]; then
-      /verif/fuzz/run_fuzz.sh "$ID" || { rc=$?; [ $rc -eq 1 ] && exit 1; }
+    frc=0
+    export VERIF_FUZZ_SUMMARY=""
+    if [ "$MODE" = thorough ] && [ -x /verif/fuzz/run_fuzz.sh ] && [ -z "$ARG" ] && [ "${VERIF_NO_FUZZ:-0}" != 1 ]; then
+      # coverage-guided campaigns first (same check functions behind libFuzzer targets)
+      export VERIF_FUZZ_SUMMARY="/verif/fuzz/campaign_$ID.txt"
+      /verif/fuzz/run_fuzz.sh "$ID" | tee "$VERIF_FUZZ_SUMMARY"
+      frc=${PIPESTATUS[0]}
+      [ $frc -eq 1 ] && exit 1
     fi
     VERIF_TIER="$MODE" $BIN check "$ID" "$MODE" $ARG
     rc=$?
+    [ $rc -eq 0 ] && [ $frc -eq 2 ] && rc=2
     ;;
   replay)
     case "$ARG" in /*) ;; *) ARG="$ORIG_PWD/$ARG";; esac
